@@ -1,7 +1,7 @@
 (* C06 - pc and its variance estimator are unbiased under multinomial sampling.
    gen_pc_n_R / gen_varpc_n_R are regenerated from pyrepseq/stats.py on every run. *)
 From Coq Require Import List Arith Reals.
-From PV Require Import gen.Gen_stats_R lib.Expect proofs.ExpectP.
+From PV Require Import gen.Gen_stats_R lib.Expect proofs.ExpectP proofs.StdP.
 Import ListNotations.
 Open Scope R_scope.
 
@@ -25,6 +25,22 @@ Theorem C06_var_unbiased : forall p, sumR p = 1 -> forall N, (4 <= N)%nat ->
     - (E p N (fun xs => gen_pc_n_R (countsR (length p) xs))) ^ 2.
 Proof. exact var_unbiased. Qed.
 Print Assumptions C06_var_unbiased.
+
+(* stdpc_n / stdpc (shape regenerated from stats.py): the non-negative square root of varpc_n of the same counts, and the only
+   one; where the estimate is negative the implementation returns nan (differential run), the guard excludes exactly that case *)
+Theorem C06_std : forall n, 0 <= gen_varpc_n_R n ->
+  0 <= gen_stdpc_n_R n /\ gen_stdpc_n_R n * gen_stdpc_n_R n = gen_varpc_n_R n /\
+  (forall s, 0 <= s -> s * s = gen_varpc_n_R n -> s = gen_stdpc_n_R n).
+Proof. exact stdpc_n_is_root. Qed.
+Print Assumptions C06_std.
+
+Theorem C06_std_sample : forall (X : Type) (unique_counts : list X -> list R) (a : list X),
+  gen_stdpc_R unique_counts a = sqrt (gen_varpc_n_R (unique_counts a)).
+Proof. exact stdpc_sample. Qed.
+Print Assumptions C06_std_sample.
+
+Example C06_std_ex : 0 < gen_varpc_n_R [2; 1; 1; 1] /\ gen_varpc_n_R [2; 2] < 0.
+Proof. split; [exact varpc_positive_somewhere | exact varpc_negative_somewhere]. Qed.
 
 (* non-vacuity: a concrete distribution and sample size meet the hypotheses *)
 Example C06_ex : sumR [1/2; 1/3; 1/6] = 1 /\ (4 <= 5)%nat.
